@@ -287,6 +287,55 @@ def rule_dbe_ranges(ctx: Ctx, clause: str = "C11.8") -> RuleResult:
     return rr
 
 
+def rule_trim_frame(ctx: Ctx, clause: str = "C11.9") -> RuleResult:
+    """calc_trim_text(text, start_offs, end_offs, start_col, end_col): start_col / end_col count columns from
+    start_offs.  A column search calc_text_pos(text, A, E, C) counts C from A, so
+      - a search for an *absolute* column (C = start_col + k) must start at start_offs itself,
+      - the start offset the function returns is found by such a column search on every path that trims on the left
+        (a search for column start_col + 1 after a straddled double-width character also passes the zero-width marks
+        attached to it; stepping one character does not)."""
+    from ..rules.defuse import DefUse
+    from ..rules.util import linear
+
+    p = ctx.p
+    rr = RuleResult("PAIR", clause, "calc_trim_text: column searches for absolute columns start at start_offs; the returned start offset comes from a column search", floor=3)
+    fi = p.func("urwid.util.calc_trim_text")
+    du = DefUse(fi)
+    cfg = du.cfg
+    so, eo, sc_, ec_ = fi.params[1:5]
+    n = 0
+    for node in cfg.nodes:
+        if node.ast is None or node.kind in ("for", "with", "handler"):
+            continue
+        for c in walk_no_nested(node.ast):
+            if isinstance(c, ast.Call) and callee_name(c) == "calc_text_pos" and len(c.args) == 4:
+                L = linear(du.expand(c.args[3], node)) if True else None
+                Lraw = linear(c.args[3])
+                use = Lraw if Lraw is not None and any(k in (sc_, ec_) for k in Lraw) else L
+                if use is None:
+                    continue
+                coef = use.get(sc_, 0) + use.get(ec_, 0)
+                origin = du.text(c.args[1], node)
+                n += 1
+                rr.inst(norm(c, 60), True, {"search": norm(c, 70), "column_is": "absolute" if coef == 1 else "relative", "origin": origin})
+                if coef == 1 and origin != so:
+                    rr.add(finding("PAIR", fi, c, f"`{norm(c, 70)}` searches for the absolute column `{norm(c.args[3], 30)}` (counted from {so}) but starts counting at `{origin}`: the slice begins too far right whenever a double-width character straddles the left edge beyond column 1", construct=f"absolute column searched from {origin}"))
+    if n < 2:
+        raise AnalysisError("calc_trim_text: the calc_text_pos column searches were not found")
+    # returned start offset: every definition made under `start_col > 0` is a column search result
+    rets = [x for x in cfg.nodes if x.kind == "return" and isinstance(x.ast.value, ast.Tuple) and len(x.ast.value.elts) == 4]
+    for r in rets:
+        e0 = r.ast.value.elts[0]
+        if not isinstance(e0, ast.Name):
+            continue
+        for v, how, dn in du.reaching(e0.id, r):
+            rr.inst(f"start offset def {norm(dn.stmt, 40)}", True)
+            ok = (isinstance(v, ast.Name) and v.id == so) or (isinstance(v, ast.Subscript) and isinstance(v.value, ast.Call) and callee_name(v.value) == "calc_text_pos") or (isinstance(v, ast.Call) and callee_name(v) == "calc_text_pos")
+            if not ok:
+                rr.add(finding("PAIR", fi, dn.stmt, f"the start offset returned by calc_trim_text can come from `{norm(dn.stmt, 50)}`, which is not a column search: after a double-width character cut at the left edge the zero-width marks attached to it must be passed too (calc_text_pos for column start_col + 1 does that)", construct=f"start offset from {norm(dn.stmt, 50)}"))
+    return rr
+
+
 def run(ctx: Ctx):
     p = ctx.p
     loops = [f.qualname for f in p.modules[SU].functions if any(isinstance(n, ast.While) for n in f.own_nodes())]
@@ -299,12 +348,15 @@ def run(ctx: Ctx):
         rule_deadcmp(ctx),
         kind.run_kind(p, "C11.7", [SU, "urwid.util"], floor=1),
         rule_dbe_ranges(ctx),
+        rule_trim_frame(ctx),
     ]
 
 
 _S = "urwid/str_util.py"
 _U = "urwid/util.py"
 MUTANTS = [
+    Mut("trim-rescan-from-moved-origin", _U, "calc_trim_text", "spos, sc = str_util.calc_text_pos(text, start_offs, end_offs, start_col + 1)", "spos, sc = str_util.calc_text_pos(text, spos, end_offs, start_col + 1)", "PAIR|util.calc_trim_text"),
+    Mut("trim-steps-one-character", _U, "calc_trim_text", "spos, sc = str_util.calc_text_pos(text, start_offs, end_offs, start_col + 1)", "spos = str_util.move_next_char(text, spos, end_offs)", "PAIR|util.calc_trim_text"),
     Mut("dbe-lead-81-excluded", _S, "within_double_byte", "if text[pos - 1] >= 0x81 and", "if text[pos - 1] > 0x81 and", "TAB|str_util.within_double_byte"),
     Mut("dbe-trail-7f-included", _S, "within_double_byte", "if 0x40 <= v < 0x7F:", "if 0x40 <= v <= 0x7F:", "TAB|str_util.within_double_byte"),
     Mut("twin-dbe-lead-gt-80", _S, "within_double_byte", "if text[pos - 1] >= 0x81 and", "if text[pos - 1] > 0x80 and", twin=True),
